@@ -215,7 +215,7 @@ def gen_specs(rng: random.Random, n, hints=None):
         cb = rng.choice([14, 15, 16] if ext else [9, 9, 10, 12, 16])
         cs = 1 << cb
         per_l2 = cs // (16 if ext else 8)
-        ncl = rng.randint(1, 6) if cb >= 12 else rng.choice([1, 3, per_l2 - 1, per_l2, per_l2 + 2])
+        ncl = rng.randint(1, 6) if cb >= 12 else rng.choice([1, 3, per_l2 - 1, per_l2, per_l2 + 2, 2 * per_l2 + 3, 3 * per_l2 + 5])
         size = ncl * cs - (rng.randint(0, cs - 1) if rng.random() < 0.3 else 0)
         slots = list(range(ncl))
         rng.shuffle(slots)
@@ -244,8 +244,8 @@ def gen_specs(rng: random.Random, n, hints=None):
               "data_gap": rng.choice([0, 0, 1]), "cmisalign": rng.choice([0, 0, 17, 300]), "l2_reverse": rng.random() < 0.3}
         nl1 = (ncl + per_l2 - 1) // per_l2
         sp["l1_size"] = nl1 + rng.choice([0, 0, 1])
-        if nl1 > 1 and rng.random() < 0.3:
-            sp["l1_holes"] = [rng.randrange(nl1)]
+        if nl1 > 1 and rng.random() < 0.5:
+            sp["l1_holes"] = sorted(rng.sample(range(nl1), rng.randint(1, nl1 - 1)))
         if sp["datafile"]:
             sp["clusters"] = [c if not (isinstance(c, list) and c[0] == "c") else None for c in sp["clusters"]]
         if rng.random() < 0.15:
@@ -260,6 +260,8 @@ def requests(spec, rng, limit=40):
     size = spec["size"]
     cs = 1 << spec["cb"]
     reqs = [(0, min(size, 4 * cs)), (max(0, size - 3000), 5000), (size, 10)]
+    if size <= (1 << 20):
+        reqs += [(0, size), (rng.randint(0, size), size)]  # whole-disk reads: runs that cross L2-table (L1 entry) boundaries
     for _ in range(limit):
         o = rng.randint(0, size)
         ln = rng.choice([1, 511, 512, 513, cs // SPC, cs // SPC + 1, cs - 1, cs, cs + 1, rng.randint(0, 3 * cs)])
